@@ -244,7 +244,7 @@ CHECKS["C17"] = {
     "parts": [
         {"engine": "P", "pkg": "internal/upstream", "tests": [
             {"run": "TestVfC17DialTarget", "quick": 4000, "thorough": 200000, "shards_quick": 4, "shards_thorough": 16},
-            {"run": "TestVfC17QuicTarget", "quick": 60, "thorough": 1500, "shards_quick": 1, "shards_thorough": 1, "exclusive": True},
+            {"run": "TestVfC17QuicTarget", "quick": 60, "thorough": 600, "shards_quick": 1, "shards_thorough": 1, "exclusive": True},
             {"run": "TestVfC17ServerName", "quick": 200, "thorough": 4000, "shards_quick": 2, "shards_thorough": 4},
         ]},
         {"engine": "E", "proxy": ["plain"], "tests": [
